@@ -227,6 +227,19 @@ func runSeeds(tier string, seed int64) {
 		emitSeed(t, "", "boundary")
 		emitSeed("", t, "boundary")
 	}
+	// the literal "mnemonic" inside the arguments: A | "mnemonic" | B | "mnemonic" | C can be read as
+	// (A, B+"mnemonic"+C) or as (A+"mnemonic"+B, C): consecutive calls whose password||salt concatenations coincide
+	for k := 0; k < 8; k++ {
+		A, B, C := strOfLen(r, r.intn(12), true), strOfLen(r, r.intn(8), k%2 == 0), strOfLen(r, r.intn(10), true)
+		if k == 0 {
+			A, B, C = "", "", ""
+		}
+		emitSeed(A, B+"mnemonic"+C, "literal")
+		emitSeed(A+"mnemonic"+B, C, "literal")
+		emitSeed(A, B+"mnemonic"+C, "literal")
+		emitSeed(A+"mnemonic", B+C, "literal")
+		emitSeed(A+"mnemonic"+B+"mnemonic", C, "literal")
+	}
 	// large inputs (beyond any 16-bit length, buffer or chunk size), validated like the small ones
 	for _, n := range map[string][]int{"quick": {65535, 65537}, "thorough": {65535, 65536, 65537, 100000, 1 << 20}}[tier] {
 		emitSeed(strOfLen(r, n, true), "TREZOR", "large")
